@@ -13,6 +13,9 @@ def writer_kinds(m, vi):
     return [(h, t[0]) for h, t in wf], ext
 
 
+from ..framework import wants
+
+
 def run(env, rep):
     rep.explanation = (
         "R1: for each of the four header formats the writer's emitted field list (width, byte order, order, presence; helper "
@@ -21,7 +24,7 @@ def run(env, rep):
         "is read (computed from the guarding comparisons, insensitive to < vs <=); R3: continuation chunks inherit the first "
         "chunk's timestamp field, the header remembered per chunk stream is the header that was emitted, and the reader stores "
         "the timestamp field only from the 24-bit value it read; R4: every path of serialize to Ok(Packet) emits at least one "
-        "chunk; R5: a format-0 header carries the absolute timestamp and the other formats the difference to the previous header of the chunk stream, on both sides; R6: a stage of the reader that returns 'not enough bytes' has no observable effect (C15 R1), so the result does not depend on how the bytes are split.  Not decided: the round trip over all histories, exact payload slicing.")
+        "chunk; R5: a format-0 header carries the absolute timestamp and the other formats the difference to the previous header of the chunk stream, on both sides; R6: a stage of the reader that returns 'not enough bytes' has no observable effect (C15 R1), so the result does not depend on how the bytes are split.  R7: a changed chunk size is announced under the old size before it is used, and no empty chunk follows a complete payload (C07 R5-R6); R8: partial messages are kept per chunk stream between chunks (C16 R1-R2).  Not decided: the round trip over all histories, exact payload slicing.")
     rep.assumptions = ["byteorder's write/read_uN::<E> encode the named width and byte order"]
     m = chunk.ChunkModel(env, rep, "C01.anchors")
     if not m.ok:
@@ -152,3 +155,10 @@ def run(env, rep):
     rep.floor("C01.R4", "Ok paths of ChunkSerializer::serialize", n_ok, 1)
     rep.check("C01.R4", "non-empty-packet", not empty, "every Ok path of serialize emits at least one chunk (%d paths)" % n_ok,
               "serialize can return Ok(Packet) without emitting any chunk (the message would be lost silently) on the path: %s" % (empty[:1]), se.span)
+    # ------------------------------------------------------------------ R7 / R8 shared rules the round trip rests on
+    from ..framework import PrefixReport
+    from . import C07, C16
+    if wants(rep, "C01.R7"):
+        C07.run(env, PrefixReport(rep, "C07.", "C01.R7.", only=("C07.R5", "C07.R6")))
+    if wants(rep, "C01.R8"):
+        C16.run(env, PrefixReport(rep, "C16.", "C01.R8.", only=("C16.R1", "C16.R2")))
